@@ -815,6 +815,203 @@ def replay_wide(chk, wds, rng, quick):
 
 
 # ------------------------------------------------------------------------------------------------------------
+# NUMERIC TAIL (not model checked): near-deterministic measurements, angles OFF the exact grid
+# ------------------------------------------------------------------------------------------------------------
+# The oracle of this part is plain float arithmetic written out here (statevectors of <= 8 amplitudes): np_apply / np_enum.
+# It is validated against TLC's exact branch table on every unperturbed program before it is used on the perturbed one.
+TAIL_DELTAS = [1e-2, -1e-2, 3e-3, -3e-3, 1e-3, -1e-3, 1e-4, -1e-4, 1e-6, -1e-6]
+TAIL_TOL_P = 1e-9          # recorded probability vs Born probability
+TAIL_TOL_STATE = 1e-11     # normalised branch state (an un-projected state is off by sin(delta/2) >= 5e-7)
+DEAD2 = 1e-24              # squared norm below which a branch is an exact zero (float residue); rare live branches are >= 2.5e-13
+
+
+def np_apply(psi, ins, n):
+    name, out = ins["name"], np.zeros_like(psi)
+    if name == "CNOT":
+        c, t = ins["c"][0], ins["t"][0]
+        for i in range(len(psi)):
+            j = i ^ (1 << (n - 1 - t)) if (i >> (n - 1 - c)) & 1 else i
+            out[j] = psi[i]
+        return out
+    if name == "H":
+        m = np.array([[1, 1], [1, -1]], dtype=complex) / math.sqrt(2)
+    elif name == "X":
+        m = np.array([[0, 1], [1, 0]], dtype=complex)
+    elif name == "T":
+        m = np.array([[1, 0], [0, np.exp(1j * math.pi / 4)]], dtype=complex)
+    elif name == "RY":
+        th = ins["theta"] if "theta" in ins else 2 * math.pi * ins["k"] / M
+        m = np.array([[math.cos(th / 2), -math.sin(th / 2)], [math.sin(th / 2), math.cos(th / 2)]], dtype=complex)
+    else:
+        raise ValueError(name)
+    q = ins["t"][0]
+    sh = n - 1 - q
+    for i in range(len(psi)):
+        b = (i >> sh) & 1
+        i0, i1 = i & ~(1 << sh), i | (1 << sh)
+        out[i] = m[b, 0] * psi[i0] + m[b, 1] * psi[i1]
+    return out
+
+
+def np_enum(prog, psi0, n):
+    """All outcome strings (exact-zero ones flagged dead) with unnormalised branch vectors, and the measurement events
+    (path of the instruction, squared norm before, squared norms of the two projections)."""
+    leaves, events = [], []
+
+    def go(pending, psi, outs):
+        pending = list(pending)
+        while pending:
+            ins, path = pending.pop(0)
+            if ins["name"] not in ("MEASURE", "CMEASURE"):
+                psi = np_apply(psi, ins, n)
+                continue
+            q = ins["t"][0]
+            sh = n - 1 - q
+            pr = []
+            for b in (0, 1):
+                pb = np.array([a if ((i >> sh) & 1) == b else 0 for i, a in enumerate(psi)], dtype=complex)
+                pr.append(pb)
+            events.append((path, float(np.vdot(psi, psi).real), float(np.vdot(pr[0], pr[0]).real), float(np.vdot(pr[1], pr[1]).real)))
+            for b in (0, 1):
+                sub = [(x, path + (b, i)) for i, x in enumerate(ins["ctl"][b])] if ins["name"] == "CMEASURE" else []
+                go(sub + pending, pr[b], outs + str(b))
+            return
+        p = float(np.vdot(psi, psi).real)
+        leaves.append({"outs": outs, "p": p, "psi": psi, "dead": p < DEAD2})
+    go([(x, (i,)) for i, x in enumerate(prog)], np.array(psi0, dtype=complex), "")
+    return leaves, events
+
+
+def insert_before(prog, path, new):
+    prog = copy.deepcopy(prog)
+    lst = prog
+    for j in range(0, len(path) - 1, 2):
+        lst = lst[path[j]]["ctl"][path[j + 1]]
+    lst[path[-1]:path[-1]] = copy.deepcopy(new)
+    return prog
+
+
+def tail_gates(prog):
+    from tangelo.linq import Gate
+    out = []
+    for ins in prog:
+        if ins["name"] == "MEASURE":
+            out.append(Gate("MEASURE", ins["t"][0]))
+        elif ins["name"] == "CMEASURE":
+            out.append(Gate("CMEASURE", ins["t"][0], parameter={"0": tail_gates(ins["ctl"][0]), "1": tail_gates(ins["ctl"][1])}))
+        elif "theta" in ins:
+            out.append(Gate("RY", ins["t"][0], parameter=ins["theta"]))
+        else:
+            out.append(json_to_gate(ins, M))
+    return out
+
+
+def tail_case(prog, n, s0, zero_init):
+    """Replay every outcome string of one perturbed program. Returns list of (aspect, outs, detail)."""
+    from tangelo.linq import Circuit
+    leaves, _ = np_enum(prog, s0, n)
+    circ = Circuit(tail_gates(prog), n_qubits=n)
+    sim = backend()
+    fails = []
+    iv = None if zero_init else np.array(s0, dtype=complex)
+    total = 0.0
+    for lf in leaves:
+        bs = lf["outs"]
+        try:
+            with warnings.catch_warnings():
+                warnings.simplefilter("ignore")
+                f, sv = sim.simulate(circ, desired_meas_result=bs, return_statevector=True, initial_statevector=iv)
+        except Exception as e:
+            if not lf["dead"]:
+                fails.append(("exception", bs, "live outcome string %r (Born probability %.6g) raised %s: %s" % (bs, lf["p"], type(e).__name__, str(e)[:160])))
+            continue
+        got = circ.success_probabilities.get(bs)
+        if lf["dead"]:
+            fails.append(("zero-prob-accepted", bs, "outcome string %r has Born probability 0 but was accepted with p = %r" % (bs, got)))
+            continue
+        total += got if got is not None else 0.0
+        if got is None or abs(got - lf["p"]) > TAIL_TOL_P:
+            fails.append(("probability", bs, "recorded probability %r, Born probability %.15g (difference %.3g)" % (got, lf["p"], (got or 0) - lf["p"])))
+        sv = np.array(sv, dtype=complex).ravel()
+        ref = lf["psi"] / math.sqrt(lf["p"])
+        err = float(np.max(np.abs(sv - ref)))
+        if err > TAIL_TOL_STATE:
+            fails.append(("projection", bs, "conditional state differs from the exactly projected, renormalised branch state by %.3g "
+                          "(amplitudes that contradict the measured bits must vanish)" % err))
+        fexp = {bitstr(i, n): abs(a) ** 2 for i, a in enumerate(ref) if abs(a) ** 2 >= 1e-10}
+        fgot = {k: float(v) for k, v in f.items()}
+        if set(fgot) != set(fexp) or max(abs(fgot[k] - fexp[k]) for k in fexp) > TAIL_TOL_P:
+            fails.append(("frequencies", bs, "branch distribution %s, exact %s" % (fgot, fexp)))
+    live = [lf for lf in leaves if not lf["dead"]]
+    if not any(a in ("exception",) for a, _, _ in fails) and abs(total - 1) > TAIL_TOL_P:
+        fails.append(("sum", None, "recorded branch probabilities sum to %.12g over all %d live outcome strings" % (total, len(live))))
+    return fails
+
+
+def numeric_tail(chk, pgs, rng, quick):
+    """Near-deterministic measurements: a rotation by delta is inserted in front of a measurement whose outcome is deterministic."""
+    want = 14 if quick else 120
+    stats = dict(programs=0, perturbed_circuits=0, replayed_outcome_strings=0, start_insertions=0, interior_insertions=0, oracle_validated=0)
+    cand = [p for p in pgs if p["n"] <= 3]
+    rng.shuffle(cand)
+    di = 0
+    for pg in cand:
+        if stats["programs"] >= want:
+            break
+        n = pg["n"]
+        s0 = pg["_s0"]
+        # ---- the float oracle must reproduce TLC's exact table on the unperturbed program -------------
+        leaves, events = np_enum(pg["prog"], s0, n)
+        tab = {b["_outs"]: b for b in pg["br"]}
+        ok = set(tab) == {lf["outs"] for lf in leaves}
+        for lf in leaves:
+            b = tab.get(lf["outs"])
+            ok = ok and b is not None and bool(b["dead"]) == lf["dead"] and abs(b["_p"] - lf["p"]) < 1e-12 and float(np.max(np.abs(b["_psi"] - lf["psi"]))) < 1e-12
+        if not ok:
+            raise tlc.TLCError("numeric tail: the float oracle disagrees with TLC's exact branch table on %s" % pg["prog"])
+        stats["oracle_validated"] += 1
+        variants = []
+        # (a) at the start of a program run from |0..0>: RY(delta) or RY(pi + delta) on q, then q measured TWICE (idempotence)
+        if pg["src"] == "zero":
+            q = rng.randrange(n)
+            variants.append(("start", (0,), q, rng.choice([0.0, math.pi]), True))
+        # (b) in front of an interior measurement whose outcome is deterministic on a live prefix
+        det = [(path, p0, p1) for path, pn, p0, p1 in events if pn > 1e-6 and min(p0, p1) < DEAD2]
+        if det:
+            path, p0, p1 = rng.choice(det)
+            ins = pg["prog"]
+            for j in range(0, len(path) - 1, 2):
+                ins = ins[path[j]]["ctl"][path[j + 1]]
+            variants.append(("interior", path, ins[path[-1]]["t"][0], 0.0, False))
+        if not variants:
+            continue
+        stats["programs"] += 1
+        for kind, path, q, base, twice in variants:
+            for _ in range(2 if quick else 4):
+                delta = TAIL_DELTAS[di % len(TAIL_DELTAS)]
+                di += 1
+                new = [{"name": "RY", "t": [q], "c": [], "k": 0, "theta": base + delta}]
+                if twice:
+                    new += [{"name": "MEASURE", "t": [q], "c": [], "k": 0}, {"name": "MEASURE", "t": [q], "c": [], "k": 0}]
+                prog = insert_before(pg["prog"], path, new)
+                fails = tail_case(prog, n, s0, pg["src"] == "zero")
+                stats["perturbed_circuits"] += 1
+                stats[kind + "_insertions"] += 1
+                stats["replayed_outcome_strings"] += len(np_enum(prog, s0, n)[0])
+                for aspect, outs, detail in fails:
+                    viol(chk, "numeric-tail:%s" % aspect, "[n=%d, RY(%s%+.0e) inserted in front of a deterministic measurement of qubit %d (%s)] %s"
+                         % (n, "pi" if base else "0", delta, q, kind, detail),
+                         {"kind": "tail", "prog": prog, "n": n, "s0": [[float(z.real), float(z.imag)] for z in s0], "zero": pg["src"] == "zero"})
+    chk.part("numeric_tail_near_deterministic_measurements_NOT_model_checked",
+             oracle="plain float statevector algebra written out in checks/c10.py (np_apply / np_enum, <= 8 amplitudes); validated against TLC's exact "
+                    "branch table on every unperturbed program it is used on",
+             deltas=TAIL_DELTAS, tolerance_probability=TAIL_TOL_P, tolerance_state=TAIL_TOL_STATE,
+             checked="for every outcome string: recorded probability = Born probability; conditional state = exactly projected renormalised branch "
+                     "state; branch distribution; probabilities over all strings sum to 1; contradicting strings (e.g. '01' on a repeated "
+                     "measurement) must raise", **stats)
+
+
+# ------------------------------------------------------------------------------------------------------------
 def density_selfcheck(chk):
     r = tlc.run("DensityCheck", "CONSTANT M = 8\nINIT Init\nNEXT Next\n", "c10/density_check", timeout=1800)
     res = r.tuples("LC")
@@ -976,6 +1173,8 @@ def run(chk):
     if not wds or any(not wcov.get(a) for a in ("AddS", "AddM", "AddB", "PickW2", "Finish")):
         raise tlc.TLCError("vacuity: wide-register layouts not generated (%s)" % wcov)
     replay_wide(chk, wds, rng, quick)
+    # ---- numeric tail (float oracle, labelled) -------------------------------------------------------------
+    numeric_tail(chk, [p for recs in pgs_sim for p in recs], random.Random(chk.seed + 101), quick)
     negative_controls(chk, [p for recs in pgs_sim for p in recs])
     chk.part("programs", replayed=n_prog, with_cmeasure=sum(1 for p in all_pgs if p["_cm"]), nested=n_nested,
              nested_measure_before_outer_measure=n_splice,
@@ -991,6 +1190,8 @@ def run(chk):
     chk.assumptions += ["programs over {H, X, RY(pi/2), T, CNOT} on n <= 3 with <= 3 MEASURE/CMEASURE, nesting depth <= 2, initial vector "
                         "|0..0> or one fixed generic entangled vector: entries in Z[zeta_8][1/2], compared with complex128 at 1e-9",
                         "sampled modes: 6-sigma band (+1.5/n_shots) under a fixed numpy seed, support inside the exact support",
+                        "NUMERIC TAIL (chk.part numeric_tail_..._NOT_model_checked): near-deterministic measurements use angles off the exact grid and a "
+                        "float oracle written out in the driver; they are not counted in states/transitions/traces",
                         "desired_meas_result longer than the executed measurements of a CMEASURE circuit is not judged (the statement "
                         "does not fix it; the code ignores the surplus)"]
 
@@ -1021,6 +1222,15 @@ def replay(chk, rec):
         fails = gen_applied(pg, br, style)
     elif kind == "sampled":
         fails = sampled(pg, case["mode"], case["shots"], case["seed"], style, case.get("outs"))
+    elif kind == "tail":
+        fails = tail_case(case["prog"], case["n"], np.array([complex(a, b) for a, b in case["s0"]]), case["zero"])
+        hit = False
+        for a, o, d in fails:
+            same = "numeric-tail:%s" % a == rec["key"]
+            hit = hit or same
+            print("  FAIL" if same else "  (other aspect)", a, o, "-", d)
+        print("program:", case["prog"])
+        return not hit
     elif kind == "wide":
         w = prepare_wide(case["w"])
         fails = wide_run(w, case["mode"], case["shots"], case["seed"])
